@@ -703,11 +703,12 @@ static void run_op(char **t, int nt)
 		logret(op, 0);
 		return;
 	}
-	if (!strcmp(op, "init")) {
+	if (!strcmp(op, "init") || !strcmp(op, "initq")) {
 		int cid, sid, flags, noerr;
 		NEED(4);
 		cid = atoi(t[1]); sid = atoi(t[2]); flags = (int)strtol(t[3], NULL, 0);
 		noerr = nt > 4 && atoi(t[4]);
+		if (op[4] == 'q' && cid >= 0 && cid < MAXCTX && ctx[cid]) return;	/* initq: only if absent */
 		if (cid < 0 || cid >= MAXCTX || ctx[cid]) die("bad cid");
 		if (!schemas[sid].used) die("init: schema %d undefined", sid);
 		ctx[cid] = cfg_init(schemas[sid].opts, flags);
